@@ -903,7 +903,7 @@ def suite_resync(tier):
     for direction in ("server", "client"):
         for gk in GARBAGE_KINDS:
             for rep in range(reps):
-                for mode in ("one-per-read", "several-per-read", "all-in-one"):
+                for mode in ("one-per-read", "several-per-read", "all-in-one", "split-reads"):
                     uid = r.choice([1, 17, 247])
                     g = b"".join(garbage(r, direction, uid, gk if i == 0 else r.choice(GARBAGE_KINDS[:7])) for i in range(r.choice([1, 1, 2, 3])))
                     if gk != "undecodable" and rep % 2:
@@ -926,6 +926,15 @@ def suite_resync(tier):
                         while i < len(adus):
                             k = r.choice([1, 2, 3, 5])
                             reads.append(b"".join(adus[i:i + k]))
+                            i += k
+                    elif mode == "split-reads":
+                        # the valid traffic as a continuous stream cut where the reads happen to end (a slow line, or
+                        # recv(n) on a busy one): frames arrive in pieces long after the garbage
+                        s, reads, i = b"".join(adus), [], 0
+                        step = r.choice([5, 16, 64])
+                        while i < len(s):
+                            k = step if r.random() < 0.5 else r.randrange(1, 2 * step + 1)
+                            reads.append(s[i:i + k])
                             i += k
                     else:
                         reads = [b"".join(adus)]
